@@ -45,6 +45,9 @@ type Auth struct {
 
 // ParseAuthorization 解析字段，server side使用
 func (a *Auth) ParseAuthorization(authStr string) (err error) {
+	// 每个请求单独解析，不保留同一连接上之前请求解析出的内容
+	*a = Auth{issuedNonce: a.issuedNonce}
+
 	switch {
 	case strings.HasPrefix(authStr, "Basic "):
 		a.Typ = AuthTypeBasic
